@@ -5,11 +5,20 @@ Data lines (answer `ok`):
   `cfg <id> nvox=<V> zero=<0|1> …`            new configuration
   `img f…` / `inp f…`                          current image / Hessian input (C99 hex floats)
   `bin  <vg> <endplane> <y> <a|-> <k> <N|E><f>…(k) <m> <vox> <p> …(m)`   one bin of the measured data
-  `sbin …`                                     same, geometry used for the sensitivity when it differs
+  `sbin …`                                     same, the non-TOF clone of the geometry (TOF data only)
 Operations (viewgram ids of the subset follow):
   `val ids…`                → `<bits of value (binary64)> <bits of bound>`   (model at `Float`)
   `grad|gps|sens ids…`, `sensdiv <n> ids…`, `hess <c0> ids…`, `ahess <c0> ids…`
                             → per voxel `<round(exact·2^100)>:<ceil(bound·2^100)>` (model at `Rat`)
+  `ssens ids…`, `ssensdiv <n> ids…`: the same as `sens`, `sensdiv` on the viewgrams of the `sbin` geometry
+  with a prior (`p…` = the prior's gradient, `pin…` = the prior's (approximate) Hessian applied to the input, V values each):
+  `pval <n> <prior value> ids…`, `pvalfull <prior value> ids…`          → like `val`: value − prior/n, value − prior
+  `pgrad <n> <V> p… ids…`, `pgradfull <V> p… ids…`                      → per voxel gradient − p/n, gradient − p
+  `phess|pahess <n> <c0> <V> pin… ids…`                                 → per voxel (c0 − product) − pin/n
+  `phessfull|pahessfull <n> <c0> <V> pin… ids… / ids… / …`              → the subsets accumulated one after the other, each step penalised
+  `balance <use_subset_sens> counts…` → `ok` / `refused`: does `set_up` accept subsets with these numbers of viewgrams;
+  `segrange <setting> <data max>` → the segment range after `set_up` or `err`;
+  `tofsens <recompute> <use_tofsens> <tof data> links…` (`T` trivial, `P0`/`P1` FromProjData without/with TOF, `E0`/`E1` table) → `use_tofsens` after `set_up`;
   a result that depends on a comparison within 2^-10 (relative) of one of the thresholds of
   `divide_and_truncate` / `accumulate_loglikelihood` is answered `near` (not compared);
   `range <n> <s>` → `ok ok` / `err err`: is subset number `s` of `n` accepted by the gradient / value functions;
@@ -137,17 +146,21 @@ def nearR (a t : Rat) : Bool := absR (a - t) * 1024 ≤ absR t && t != 0
 def nearDiv (small num denom : Rat) : Bool :=
   (nearR num small) || (small < num && nearR num (constsR.maxQuot * denom))
 
-/-- per-voxel answer: exact value and bound from contributions and absolute contributions -/
-def fmtVec (nvox : Nat) (rowLen : Nat) (out0 : Rat) (sign : Rat) (cs mags : List (Nat × Rat)) (divide : Rat := 1) : String :=
+/-- per-voxel exact value and bound from contributions and absolute contributions -/
+def vecCore (nvox : Nat) (rowLen : Nat) (out0 : Rat) (sign : Rat) (cs mags : List (Nat × Rat)) (divide : Rat := 1) : Array (Rat × Rat) :=
   let val := accumulate nvox cs
   let mag := accumulate nvox mags
   let cnt := accumulate nvox (cs.map fun e => (e.1, (1 : Rat)))
-  let toks := (List.range nvox).map fun v =>
+  ((List.range nvox).map fun v =>
     let x := (out0 + sign * val.getD v 0) / divide
     let n : Rat := (rowLen : Int) + cnt.getD v 0 + 10
     let b := 4 * n * u24 * (absR out0 + mag.getD v 0) / divide
-    s!"{roundScaled x}:{ceilScaled b}"
-  " ".intercalate toks
+    (x, b)).toArray
+
+/-- `none` stands for `near` -/
+def fmtPairs : Option (Array (Rat × Rat)) → String
+  | none => "near"
+  | some a => " ".intercalate (a.toList.map fun (x, b) => s!"{roundScaled x}:{ceilScaled b}")
 
 def maxRowLen (S : List (Viewgram Rat)) : Nat :=
   S.foldl (fun m vg => vg.foldl (fun m b => max m b.row.length) m) 0
@@ -166,48 +179,75 @@ def magContribs (pmax : Rat) (smallF : Viewgram Rat → Rat) (wabs : Rat → Bin
 def anyBin (S : List (Viewgram Rat)) (p : Viewgram Rat → Bin Rat → Bool) : Bool :=
   S.any fun vg => vg.any (p vg)
 
-def doGrad (c : Ctx) (addSens : Bool) (ids : List Nat) : String :=
+def gradCore (c : Ctx) (addSens : Bool) (ids : List Nat) : Option (Array (Rat × Rat)) :=
   let S := getVgs c.vgs ids
   let img := fun i => c.img.getD i 0
   let smallF := smallOf constsR (yEff c.zero)
-  if anyBin S (fun vg b => nearDiv (smallF vg) (yEff c.zero b) (est c.zero img b)) then "near" else
+  if anyBin S (fun vg b => nearDiv (smallF vg) (yEff c.zero b) (est c.zero img b)) then none else
   let cs := gradContribs constsR c.zero addSens img S
   let mags := magContribs c.pmax smallF (fun s b =>
       absR (divTrunc constsR s (yEff c.zero b) (est c.zero img b)) +
         (if addSens then 0 else absR ((mult c.zero b).getD 1))) S
-  fmtVec c.nvox (maxRowLen S) 0 1 cs mags
+  some (vecCore c.nvox (maxRowLen S) 0 1 cs mags)
 
-def doSens (c : Ctx) (ids : List Nat) (divide : Rat) : String :=
-  -- the sensitivity geometry is a separate (non-TOF) one when the data are TOF and `use_tofsens` is off
-  let S := getVgs (if c.hasS then c.svgs else c.vgs) ids
+/-- `sep`: on the separate (non-TOF) geometry of the `sbin` lines — what the library uses for TOF data when `use_tofsens` is off -/
+def sensCore (c : Ctx) (sep : Bool) (ids : List Nat) (divide : Rat) : Option (Array (Rat × Rat)) :=
+  let S := getVgs (if sep then c.svgs else c.vgs) ids
   let cs := sensContribs c.zero S
   let mags := magContribs c.pmax (fun _ => 0) (fun _ b => sensW c.zero b) S
-  fmtVec c.nvox (maxRowLen S + 4) 0 1 cs mags divide
+  some (vecCore c.nvox (maxRowLen S + 4) 0 1 cs mags divide)
 
-def doHess (c : Ctx) (c0 : Rat) (ids : List Nat) : String :=
+def hessCore (c : Ctx) (c0 : Rat) (ids : List Nat) : Option (Array (Rat × Rat)) :=
   let S := getVgs c.vgs ids
   let img := fun i => c.img.getD i 0
   let x := fun i => c.inp.getD i 0
   let smallF := smallOf constsR (hessNum x)
-  if anyBin S (fun vg b => nearDiv (smallF vg) (hessNum x b) (ybarH img b * ybarH img b)) then "near" else
+  if anyBin S (fun vg b => nearDiv (smallF vg) (hessNum x b) (ybarH img b * ybarH img b)) then none else
   let cs := hessContribs constsR img x S
   let mags := magContribs c.pmax smallF (hessW constsR img x) S
-  fmtVec c.nvox (3 * maxRowLen S) c0 (-1) cs mags
+  some (vecCore c.nvox (3 * maxRowLen S) c0 (-1) cs mags)
 
-def doAHess (c : Ctx) (c0 : Rat) (ids : List Nat) : String :=
+def ahessCore (c : Ctx) (c0 : Rat) (ids : List Nat) : Option (Array (Rat × Rat)) :=
   let S := getVgs c.vgs ids
   let x := fun i => c.inp.getD i 0
   let smallF := smallOf constsR (fun b : Bin Rat => fwd x b.row)
-  if anyBin S (fun vg b => nearDiv (smallF vg) (fwd x b.row) (applyNorm constsR b.fac (applyNorm constsR b.fac b.y))) then "near" else
+  if anyBin S (fun vg b => nearDiv (smallF vg) (fwd x b.row) (applyNorm constsR b.fac (applyNorm constsR b.fac b.y))) then none else
   let cs := ahessContribs constsR x S
   let mags := magContribs c.pmax smallF (ahessW constsR x) S
-  fmtVec c.nvox (maxRowLen S + 8) c0 (-1) cs mags
+  some (vecCore c.nvox (maxRowLen S + 8) c0 (-1) cs mags)
 
-def doVal (c : Ctx) (ids : List Nat) : String :=
+/-- a penalised per-voxel quantity: `f (unpenalised) (prior term)`; three more float operations on the operands -/
+def withPrior (core : Option (Array (Rat × Rat))) (p : Array Rat) (share : Rat) (f : Rat → Rat → Rat) : Option (Array (Rat × Rat)) :=
+  core.map fun a => (a.toList.zipIdx.map fun ((x, b), v) =>
+    let pv := p.getD v 0
+    (f x pv, b + 16 * u24 * (absR x + absR pv / share))).toArray
+
+/-- `accumulate_Hessian_times_input` / `add_multiplication_with_approximate_Hessian` on an object with a prior
+    (`hessTimesPenFull` / `approxHessPenFull` of the model, with `imageAt` evaluated through `accumulate`: `C05_accumulate_is_image`):
+    `step c0 ids` = the unpenalised subset product subtracted from an output filled with 0, per subset -/
+def penFullCore (c : Ctx) (step : Ctx → Rat → List Nat → Option (Array (Rat × Rat))) (n : Nat) (c0 : Rat) (pin : Array Rat)
+    (subsets : List (List Nat)) : Option (Array (Rat × Rat)) := do
+  let parts ← subsets.mapM fun ids => step c 0 ids
+  let nn : Rat := (n : Int)
+  some ((List.range c.nvox).map fun v =>
+    let pv := pin.getD v 0
+    -- (`hessTimes … o S v = o − (product)`; `step` with output 0 gives `−(product)`)
+    let x := parts.foldl (fun o part => penalisedHess (o + (part.getD v (0, 0)).1) pv nn) c0
+    let b := parts.foldl (fun s part => s + (part.getD v (0, 0)).2) 0
+    let m := parts.foldl (fun s part => s + absR (part.getD v (0, 0)).1) (absR c0 + absR pv)
+    (x, b + 8 * ((subsets.length : Int) + 1 : Rat) * u24 * m)).toArray
+
+/-- ids of the subsets, separated by `/` -/
+def splitSubsets (toks : List String) : List (List Nat) :=
+  let (cur, done) := toks.foldl (fun (acc : List Nat × List (List Nat)) t =>
+      if t == "/" then ([], acc.1.reverse :: acc.2) else (t.toNat?.getD 0 :: acc.1, acc.2)) ([], [])
+  (cur.reverse :: done).reverse
+
+/-- value and bound at binary64; `none` = near a threshold -/
+def valCore (c : Ctx) (ids : List Nat) : Option (Float × Float) :=
   let SR := getVgs c.vgs ids
-  let imgR := fun i => c.img.getD i 0
   let smallR := smallOf constsR (yEff c.zero)
-  if anyBin SR (fun vg b => nearR (yEff c.zero b) (smallR vg)) then "near" else
+  if anyBin SR (fun vg b => nearR (yEff c.zero b) (smallR vg)) then none else
   let S : List (Viewgram Float) := SR.map (·.map binF)
   let imgA := c.img.map toFloat
   let img := fun i => imgA.getD i 0
@@ -222,7 +262,15 @@ def doVal (c : Ctx) (ids : List Nat) : String :=
         y.abs + (t + e).abs + e) vg) S
   let n := (maxRowLen SR + 10).toFloat
   let bound := 4 * n * (Float.ofScientific 1 true 0 / 16777216.0) * m + 8 / 16777216.0 * v.abs
-  s!"{v.toBits} {bound.toBits}"
+  some (v, bound)
+
+def fmtVal : Option (Float × Float) → String
+  | none => "near"
+  | some (v, bound) => s!"{v.toBits} {bound.toBits}"
+
+/-- penalised value: the prior term enters in binary64 (two operations) -/
+def valWithPrior (core : Option (Float × Float)) (prior : Float) (f : Float → Float → Float) : Option (Float × Float) :=
+  core.map fun (v, b) => (f v prior, b + (v.abs + prior.abs) / 1.0e15)
 
 /-- `pen n c q… p…` → per element `penalised q p n`; bound: three float operations on the operands -/
 def doPen (n : Nat) (c : Nat) (vals : List String) (hess : Bool) : String :=
@@ -261,13 +309,50 @@ def stepLine (c : Ctx) (line : String) : Ctx × String :=
     match parseBin rest with
     | some (vg, b) => ({ c with svgs := pushBin c.svgs vg b, hasS := true, pmax := maxElem c.pmax b }, "ok")
     | none => (c, "bad-bin")
-  | "val" :: ids => (c, doVal c (ids.map N))
-  | "grad" :: ids => (c, doGrad c false (ids.map N))
-  | "gps" :: ids => (c, doGrad c true (ids.map N))
-  | "sens" :: ids => (c, doSens c (ids.map N) 1)
-  | "sensdiv" :: n :: ids => (c, doSens c (ids.map N) ((N n : Int) : Rat))
-  | "hess" :: c0 :: ids => (c, doHess c (hexD c0) (ids.map N))
-  | "ahess" :: c0 :: ids => (c, doAHess c (hexD c0) (ids.map N))
+  | "val" :: ids => (c, fmtVal (valCore c (ids.map N)))
+  | "grad" :: ids => (c, fmtPairs (gradCore c false (ids.map N)))
+  | "gps" :: ids => (c, fmtPairs (gradCore c true (ids.map N)))
+  | "sens" :: ids => (c, fmtPairs (sensCore c false (ids.map N) 1))
+  | "sensdiv" :: n :: ids => (c, fmtPairs (sensCore c false (ids.map N) ((N n : Int) : Rat)))
+  | "ssens" :: ids => (c, fmtPairs (sensCore c true (ids.map N) 1))
+  | "ssensdiv" :: n :: ids => (c, fmtPairs (sensCore c true (ids.map N) ((N n : Int) : Rat)))
+  | "hess" :: c0 :: ids => (c, fmtPairs (hessCore c (hexD c0) (ids.map N)))
+  | "ahess" :: c0 :: ids => (c, fmtPairs (ahessCore c (hexD c0) (ids.map N)))
+  | "pval" :: n :: pv :: ids =>
+    let nn : Float := (N n).toFloat
+    (c, fmtVal (valWithPrior (valCore c (ids.map N)) (toFloat (hexD pv)) (fun q p => penalised q p nn)))
+  | "pvalfull" :: pv :: ids =>
+    (c, fmtVal (valWithPrior (valCore c (ids.map N)) (toFloat (hexD pv)) penalisedFull))
+  | "pgrad" :: n :: cnt :: rest =>
+    let p := ((rest.take (N cnt)).map hexD).toArray
+    let nn : Rat := ((N n : Int) : Rat)
+    (c, fmtPairs (withPrior (gradCore c false ((rest.drop (N cnt)).map N)) p nn (fun q pr => penalised q pr nn)))
+  | "pgradfull" :: cnt :: rest =>
+    let p := ((rest.take (N cnt)).map hexD).toArray
+    (c, fmtPairs (withPrior (gradCore c false ((rest.drop (N cnt)).map N)) p 1 penalisedFull))
+  | "phess" :: n :: c0 :: cnt :: rest =>
+    let p := ((rest.take (N cnt)).map hexD).toArray
+    let nn : Rat := ((N n : Int) : Rat)
+    (c, fmtPairs (withPrior (hessCore c (hexD c0) ((rest.drop (N cnt)).map N)) p nn (fun q pr => penalisedHess q pr nn)))
+  | "pahess" :: n :: c0 :: cnt :: rest =>
+    let p := ((rest.take (N cnt)).map hexD).toArray
+    let nn : Rat := ((N n : Int) : Rat)
+    (c, fmtPairs (withPrior (ahessCore c (hexD c0) ((rest.drop (N cnt)).map N)) p nn (fun q pr => penalisedHess q pr nn)))
+  | "phessfull" :: n :: c0 :: cnt :: rest =>
+    let p := ((rest.take (N cnt)).map hexD).toArray
+    (c, fmtPairs (penFullCore c hessCore (N n) (hexD c0) p (splitSubsets (rest.drop (N cnt)))))
+  | "pahessfull" :: n :: c0 :: cnt :: rest =>
+    let p := ((rest.take (N cnt)).map hexD).toArray
+    (c, fmtPairs (penFullCore c ahessCore (N n) (hexD c0) p (splitSubsets (rest.drop (N cnt)))))
+  | "balance" :: u :: counts =>
+    (c, if setUpAcceptsSubsets (u == "1") (counts.map N) then "ok" else "refused")
+  | ["segrange", setting, dmax] =>
+    (c, match segRangeAfterSetUp (setting.toInt?.getD 0) (dmax.toInt?.getD 0) with
+        | some m => toString m
+        | none => "err")
+  | "tofsens" :: rec :: u :: tofData :: links =>
+    let normTof := isTofOnlyNorm (links.map fun l => l == "P1" || l == "E1")
+    (c, if useTofsensAfterSetUp (rec == "1") (u == "1") (tofData == "1") normTof then "1" else "0")
   | ["range", n, s] =>
     let a := if subsetAccepted (n.toInt?.getD 0) (s.toInt?.getD 0) then "ok" else "err"
     (c, a ++ " " ++ a)
